@@ -263,6 +263,7 @@ type Result struct {
 	Sig      uint64
 	Switches int
 	TurnsPer []int
+	Holds    int // times a task was held back after a release point
 }
 
 // Run executes the task bodies under a schedule drawn from the tape. Each
@@ -318,6 +319,7 @@ func Run(t *core.Tape, bodies []func()) Result {
 		}
 	}
 	last := -1
+	holdUntil := make([]int, n)
 	phaseStart := core.CPUNow()
 	for {
 		// settle: every blocked task is either still waiting on the lock or has parked
@@ -346,6 +348,20 @@ func Run(t *core.Tape, bodies []func()) Result {
 			}
 			res.Stuck = "no runnable task"
 			return res
+		}
+		// A task that parked right after a release may be held back for a drawn number of steps
+		// (a slow caller): the others then get far enough to do, inside the window it left open,
+		// whatever they were about to do - one step is rarely enough for that.
+		if len(runnable) > 1 {
+			free := runnable[:0:0]
+			for _, i := range runnable {
+				if res.Steps >= holdUntil[i] {
+					free = append(free, i)
+				}
+			}
+			if len(free) > 0 {
+				runnable = free
+			}
 		}
 		pick := runnable[t.Draw(len(runnable))]
 		res.Steps++
@@ -404,6 +420,10 @@ func Run(t *core.Tape, bodies []func()) Result {
 				res.Stuck = fmt.Sprintf("task %d holds the baton and makes no progress (site %s)", pick, siteNames[getSite(pick)])
 				return res
 			}
+		}
+		if getState(pick) == stParked && getSite(pick) == SiteRelease && t.Chance(1, 2) {
+			holdUntil[pick] = res.Steps + 1<<uint(t.Draw(9)) // 1 .. 256 steps
+			res.Holds++
 		}
 	}
 	wg.Wait()
